@@ -709,6 +709,115 @@ func runSDScenario(rng *rand.Rand) *c10SDRes {
 	return res
 }
 
+// c10Leader is the client a follower holds towards its leader; like the real rpc client it reports itself connected
+// after every successful (re)connect.
+type c10Leader struct {
+	mu                      sync.Mutex
+	pingOK, reconnOK, regOK bool
+	connected               bool
+	calls                   []string
+}
+
+func (l *c10Leader) rec(s string) { l.mu.Lock(); l.calls = append(l.calls, s); l.mu.Unlock() }
+func (l *c10Leader) Close() error {
+	l.rec("Close")
+	l.mu.Lock()
+	l.connected = false
+	l.mu.Unlock()
+	return nil
+}
+func (l *c10Leader) Ping() error {
+	if l.pingOK {
+		return nil
+	}
+	return fmt.Errorf("scripted ping failure")
+}
+func (l *c10Leader) Register() error {
+	l.rec("Register")
+	if l.regOK {
+		return nil
+	}
+	return fmt.Errorf("scripted register failure")
+}
+func (l *c10Leader) IsConnected() bool { l.mu.Lock(); defer l.mu.Unlock(); return l.connected }
+func (l *c10Leader) Reconnect() error {
+	l.rec("Reconnect")
+	if l.reconnOK {
+		l.mu.Lock()
+		l.connected = true
+		l.mu.Unlock()
+		return nil
+	}
+	return fmt.Errorf("scripted reconnect failure")
+}
+func (l *c10Leader) Rebalance(int, int) error { return nil }
+
+// runFollowerRounds (C): one heart-beat round (5 s, hard-coded) of the real serviceDiscovery as a follower, for every
+// combination of the leader answering the ping / accepting the reconnect / accepting the registration.
+type c10Combo struct{ p, r, g bool }
+type c10FObs struct {
+	calls []string
+}
+
+func collectFollowerRounds() ([]c10Combo, []c10FObs) {
+	var combos []c10Combo
+	for i := 0; i < 8; i++ {
+		combos = append(combos, c10Combo{i&4 != 0, i&2 != 0, i&1 != 0})
+	}
+	out := make([]c10FObs, len(combos))
+	Parallel(len(combos), 8, func(i int) {
+		k := combos[i]
+		sd := servicediscovery.NewServiceDiscovery(&config.Dcp{}, EventBus.New())
+		lc := &c10Leader{pingOK: k.p, reconnOK: k.r, regOK: k.g, connected: true}
+		sd.AssignLeader(servicediscovery.NewService(lc, "leader", 1))
+		sd.StartHeartbeat()
+		time.Sleep(5700 * time.Millisecond)
+		sd.StopHeartbeat()
+		lc.mu.Lock()
+		out[i].calls = append([]string{}, lc.calls...)
+		lc.mu.Unlock()
+	})
+	return combos, out
+}
+
+func reportFollowerRounds(c *Ctx, combos []c10Combo, out []c10FObs) ([]gal.Term, []string) {
+	var cs []gal.Term
+	var rs []string
+	for i, k := range combos {
+		calls := out[i].calls
+		rep := map[string]interface{}{"kind": "follower-heartbeat-round", "leader_ping_ok": k.p, "reconnect_ok": k.r, "register_ok": k.g, "calls_on_the_leader_client": calls}
+		c.Count("C:follower-round")
+		c.Eval(fmt.Sprint("follower round ", k), !k.p)
+		still := true
+		var ts []gal.Term
+		for _, x := range calls {
+			switch x {
+			case "Reconnect":
+				ts = append(ts, "FReconnect")
+			case "Register":
+				ts = append(ts, "FRegister")
+			case "Close":
+				ts = append(ts, "FDropLeader")
+				still = false
+			}
+		}
+		// monitor: a follower that reached its leader again after a failed ping registers again
+		if !k.p && k.r {
+			reg := false
+			for _, x := range calls {
+				reg = reg || x == "Register"
+			}
+			if !reg {
+				c.Violate("follower-not-readmitted", "the ping of the leader failed, the reconnect succeeded, and the follower did not register again (calls on the leader's client: "+fmt.Sprint(calls)+
+					"): a leader that dropped it or was restarted numbers the group without it while it keeps streaming under its old number", rep)
+			}
+		}
+		cs = append(cs, gal.Tuple(gal.Tuple(gal.Bool(k.p), gal.Bool(k.r), gal.Bool(k.g)), gal.List(ts), gal.Bool(still)))
+		rs = append(rs, J(rep))
+	}
+	return cs, rs
+}
+
 func runC10(c *Ctx) {
 	c.Res.Rule = "(A) 2..6 real cbMembership instances (VerifNewCBMembership: the same struct, its register / heartbeat / monitor run by the harness) sharing one bucket of the " +
 		"simulated node, in child processes: joins, silent deaths, expiring documents, quiescent periods (real clock, 300 ms heart-beat limit), monitor rounds of single members in any " +
@@ -722,10 +831,16 @@ func runC10(c *Ctx) {
 		sdSeeds[i] = c.Rng.Int63()
 	}
 	var wg sync.WaitGroup
-	wg.Add(1)
+	wg.Add(2)
 	go func() {
 		defer wg.Done()
 		Parallel(nb, 64, func(i int) { sdRes[i] = runSDScenario(newRng(sdSeeds[i])) })
+	}()
+	var fCombos []c10Combo
+	var fObs []c10FObs
+	go func() {
+		defer wg.Done()
+		fCombos, fObs = collectFollowerRounds()
 	}()
 
 	// (A)
@@ -840,4 +955,8 @@ func runC10(c *Ctx) {
 	}
 	c.Emit("sd", "leader publishes and Rebalance RPC arguments per monitor round of the real serviceDiscovery vs Membership.sd_run",
 		[]string{"Model.Membership", "Corr.CorrC10"}, "list sdop * list (list sdout)", "chk_sd", bs, br, 60)
+	// (C)
+	fc, fr := reportFollowerRounds(c, fCombos, fObs)
+	c.Emit("follower", "calls of one heart-beat round of the real serviceDiscovery as a follower vs Membership.fh_round",
+		[]string{"Model.Membership", "Corr.CorrC10"}, "(bool * bool * bool) * list fhout * bool", "chk_follower", fc, fr, 60)
 }
